@@ -70,6 +70,21 @@ def learned_stream(rs, tier):
             DECL["doms"] = doms
             return learn_spn(X, dists, doms, learn_leaf=cfg["leaf"], split_rows=cfg["rows"], split_cols=cfg["cols"],
                              min_rows_slice=cfg["min_rows"], min_cols_slice=cfg["min_cols"],
+                             split_rows_kwargs=(dict(n=cfg.get("rows_n", 2)) if cfg["rows"] != "random" else dict()),
+                             random_state=int(rs.randint(2 ** 31 - 1)), verbose=False), X.shape[1], None
+        out.append(("learnspn", cfg, f, False))
+    # more clusters requested than there are distinct rows: a clusterer may leave cluster ids unused
+    for i in range(16 if tier == "quick" else 120):
+        cfg = dict(kind=["bin", "cont", "cat", "bin"][i % 4], rows=["kmeans_mb", "rdc", "kmeans", "gmm"][i % 4], cols="rdc", leaf="mle",
+                   rows_n=int(rs.choice([3, 4, 5])), n=int(rs.choice([24, 60, 120])), d=int(rs.randint(2, 5)),
+                   distinct=int(rs.choice([2, 3, 4])), min_rows=int(rs.choice([2, 6])), min_cols=1, few_distinct=True)
+        def f(cfg=cfg):
+            X, dists, doms = c05.gen_data(rs, cfg["kind"], cfg["n"], cfg["d"])
+            X = X[rs.randint(0, cfg["distinct"], size=cfg["n"])]
+            from deeprob.spn.learning.learnspn import learn_spn
+            DECL["doms"] = doms
+            return learn_spn(X, dists, doms, learn_leaf="mle", split_rows=cfg["rows"], split_cols=cfg["cols"],
+                             min_rows_slice=cfg["min_rows"], min_cols_slice=1, split_rows_kwargs=dict(n=cfg["rows_n"]),
                              random_state=int(rs.randint(2 ** 31 - 1)), verbose=False), X.shape[1], None
         out.append(("learnspn", cfg, f, False))
     for i in range(8 if tier == "quick" else 60):
